@@ -63,6 +63,12 @@ func NewConfig(prop string, tier string, r *core.Rand) Config {
 			c.NActors = c.NVals + r.Range(3, 6)
 			c.Blocks = r.Range(24, 40)
 		}
+		if r.Chance(0.25) {
+			// followers serve mempool checks (also of the genuine versions of txs a block carries altered)
+			c.Noisy = true
+			c.SideMean = 0.5
+			c.PTamper = 0.15
+		}
 	case "C02":
 		c.KindW["stake"], c.KindW["delegate"], c.KindW["unstake"], c.KindW["withdraw"] = 3, 3, 3, 2
 		c.PInvalid = 0.3
@@ -181,6 +187,7 @@ func NewConfig(prop string, tier string, r *core.Rand) Config {
 		c.Blocks = r.Range(20, 40)
 	case "C15":
 		c.KindW["proposal"], c.KindW["vote"] = 2.5, 5
+		c.PTamper = []float64{0, 0.08}[r.Intn(2)] // proposals and votes altered after signing
 		c.NVals = r.Range(2, 5)
 		c.NActors = c.NVals + r.Range(2, 5)
 		c.Blocks = r.Range(24, 44)
@@ -191,6 +198,13 @@ func NewConfig(prop string, tier string, r *core.Rand) Config {
 		if r.Chance(0.5) {
 			c.EVM = true
 			c.KindW["deploy"], c.KindW["call"] = 1, 3
+		}
+		if r.Chance(0.35) {
+			// mempool checks on the block producer: txs admitted under one set of fee parameters may be
+			// delivered under another
+			c.Noisy, c.NoisyLeader = true, true
+			c.SideMean = 0.4
+			c.Followers = 1
 		}
 	case "C17x":
 	}
@@ -570,11 +584,17 @@ func (g *Generator) mutation(kind string) *Mutation {
 		fields = append(fields, "inject", "inject", "inject")
 	}
 	f := fields[g.r.Intn(len(fields))]
+	if kind == "proposal" && g.r.Chance(0.5) {
+		return &Mutation{Field: "payload", How: []string{"apply", "period", "", "opt", "msg"}[g.r.Intn(5)]}
+	}
 	if kind == "unstake" && g.r.Chance(0.5) {
 		return &Mutation{Field: "payload", How: []string{"", "", "extend"}[g.r.Intn(3)]}
 	}
 	if kind == "vote" && g.r.Chance(0.4) {
 		return &Mutation{Field: "payload", How: []string{"extend", "hash", ""}[g.r.Intn(3)]}
+	}
+	if (kind == "deploy" || kind == "call") && g.r.Chance(0.4) {
+		return &Mutation{Field: "payload", How: []string{"tail", ""}[g.r.Intn(2)]}
 	}
 	if kind == "withdraw" && g.r.Chance(0.4) {
 		return &Mutation{Field: "payload", How: []string{"w64", ""}[g.r.Intn(2)]}
@@ -587,8 +607,8 @@ func (g *Generator) mutation(kind string) *Mutation {
 		mu.How = []string{"", "msg", "opt", "apply", "period", "hash", "url", "w64", "extend"}[g.r.Intn(9)]
 	case "amount", "nonce":
 		mu.How = []string{"inc", "dec"}[g.r.Intn(2)]
-		if f == "amount" && g.r.Chance(0.3) {
-			mu.How = []string{"w64", "w128"}[g.r.Intn(2)] // only a higher word changes
+		if f == "amount" && g.r.Chance(0.4) {
+			mu.How = []string{"w64", "w128", "shl8"}[g.r.Intn(3)] // only a higher word changes / the digits move up a byte
 		}
 	}
 	return mu
@@ -790,6 +810,10 @@ func (g *Generator) intent(h int64) Intent {
 			it.URL = "" // one field empty
 		case 4, 5:
 			it.Name = ""
+		case 7:
+			it.URL = "https://d/" + strings.Repeat("u", []int{2037, 2038, 2039}[g.r.Intn(3)]) // 2047, 2048, 2049 bytes
+		case 8:
+			it.Name = strings.Repeat("n", []int{2047, 2048}[g.r.Intn(2)])
 		case 6:
 			// within the limit counted in characters, beyond it counted in bytes
 			it.Name = strings.Repeat("\ud55c", []int{682, 1024, 2048}[g.r.Intn(3)])
@@ -799,6 +823,11 @@ func (g *Generator) intent(h int64) Intent {
 		it = Intent{Kind: "deploy", Actor: g.richActor(), Data: hex.EncodeToString(code), Gas: fmt.Sprintf("n:%d", g.r.Range(100_000, 1_500_000))}
 		if g.r.Chance(0.3) {
 			it.Amt = fmt.Sprintf("n:%d", g.r.Range(1, 1_000_000))
+		}
+		if g.r.Chance(0.08) {
+			// a payload of more than 8 KiB (dead bytes behind the init code): whatever treats long inputs differently
+			it.Data = hex.EncodeToString(append(code, make([]byte, g.r.Range(8300, 12000))...))
+			it.Gas = "n:2400000"
 		}
 	case "call":
 		if len(m.Contracts) == 0 {
@@ -1055,6 +1084,17 @@ func (g *Generator) NextBlock(h int64) BlockStep {
 			}
 			g.followUp = nil
 		}
+	}
+	pPark := 0.15
+	if w.Probes.C["gov.params-changed"] > g.govChangedPrev {
+		pPark = 0.85 // right after the parameters changed: what was admitted under the old ones arrives now
+	}
+	if len(w.Parked) > 0 && !bootstrapQuiet && g.r.Chance(pPark) {
+		// a tx that passed a mempool check some blocks ago reaches a block now
+		i := g.r.Intn(len(w.Parked))
+		st.Txs = append(st.Txs, Intent{Kind: "bytes", Raw: w.Parked[i]})
+		w.Parked = append(w.Parked[:i], w.Parked[i+1:]...)
+		w.Probes.Hit("gen.parked-tx-delivered")
 	}
 	if g.reopenedPrev && !bootstrapQuiet {
 		st.Txs = append(st.Txs, g.reopenProbes()...)
